@@ -2,7 +2,8 @@ import QibProofs.Lemmas.GateNetFamilies
 import QibProofs.Lemmas.GateNetChain
 /-!
 Helper lemmas for C06: structure of the controlled-gate network (`ctrlNet`): bond keys, labels of the open legs,
-pins, internal bonds, real tensors, bond dimensions. No property statements.
+pins, internal bonds, real tensors, bond dimensions, and its denotation for an arbitrary data function whose
+crossing / Pauli-X entries satisfy their defining tables (`ctrl_full_pos`, `ctrl_full_neg`). No property statements.
 -/
 set_option linter.unusedSimpArgs false
 set_option linter.unnecessarySeqFocus false
@@ -400,6 +401,217 @@ theorem ctrl_bondDim (c0 : Bool) (rest : List Bool) (nt : Nat) (j : Nat) (h1 : 1
     · simp only [ctrlNet, List.mem_append]; exact Or.inr he
     · have := crossTensors_shape _ _ _ _ e he
       rw [this.1, this.2]; rfl
+
+end
+end Qib.GateNet
+
+namespace Qib.GateNet
+open Qib.TNet
+
+section
+variable {α : Type} [CommSemiring α]
+
+/-- `chain_sum` on the labels of the controlled-gate network -/
+theorem ctrl_chain (c0 : Bool) (rest : List Bool) (nt : Nat) (D : Option Int → List Nat → α) (hX : ∀ c ∈ rest, CrossSpec (Xf D) c)
+    (g : (Int → Nat) → α) (σ : Int → Nat) (oc ic : List Nat)
+    (hg : ∀ j, 1 < j → j < 1 + rest.length → Indep g (cUp (cOff nt (!c0)) (rest.length + 1) j))
+    (ho : (outs (cOff nt (!c0)) rest.length).map σ = oc) (hi : (ins (cOff nt (!c0)) rest.length).map σ = ic)
+    (hoc : ∀ x ∈ oc, x < 2) (hic : ∀ x ∈ ic, x < 2) (hu : σ (cUp (cOff nt (!c0)) (rest.length + 1) 1) < 2) :
+    sumOver (bondDim (ctrlNet c0 rest nt)) ((List.range' 2 rest.length).map (cUp (cOff nt (!c0)) (rest.length + 1)))
+      (fun τ => chainProd (Xf D) (cOut (cOff nt (!c0))) (cIn (cOff nt (!c0))) (cUp (cOff nt (!c0)) (rest.length + 1)) 1 rest τ * g τ) σ =
+    (if oc = ic then 1 else 0) *
+      g (upd σ (cUp (cOff nt (!c0)) (rest.length + 1) (1 + rest.length))
+        (if σ (cUp (cOff nt (!c0)) (rest.length + 1) 1) = 1 ∧ oc = rest.map bit then 1 else 0)) := by
+  have h := chain_sum (Xf D) (cOut (cOff nt (!c0))) (cIn (cOff nt (!c0))) (cUp (cOff nt (!c0)) (rest.length + 1))
+    (bondDim (ctrlNet c0 rest nt)) g rest hX 1 σ
+    (fun j h1 h2 => ctrl_bondDim c0 rest nt j (by omega) (by omega))
+    (fun j j' h1 h2 h3 h4 e => cUp_inj _ _ _ _ h1 (by omega) h3 (by omega) e)
+    (fun j j' h1 h2 h3 h4 => by
+      constructor <;> (simp only [cUp, cOut, cIn, Int.ofNat_eq_natCast]; split <;> omega))
+    hg
+    (fun j h1 h2 => by
+      constructor
+      · apply hoc; rw [← ho]; exact List.mem_map_of_mem (mem_outs.mpr ⟨j, h1, h2, rfl⟩)
+      · apply hic; rw [← hi]; exact List.mem_map_of_mem (mem_ins.mpr ⟨j, h1, h2, rfl⟩))
+    hu
+  simp only [outs, ins, List.map_map, Function.comp_def] at ho hi
+  rw [ho, hi] at h
+  exact h
+
+end
+end Qib.GateNet
+
+namespace Qib.GateNet
+open Qib.TNet
+section
+variable {α : Type} [CommSemiring α]
+
+theorem map_upd_of_notMem {L : Type} [DecidableEq L] (xs : List L) (σ : L → Nat) (l : L) (v : Nat) (h : l ∉ xs) :
+    xs.map (upd σ l v) = xs.map σ := by
+  apply List.map_congr_left
+  intro x hx
+  exact upd_other _ (fun e => h (by rw [← e]; exact hx)) _
+
+theorem cUp_notMem_irange (neg : Bool) (nt nc j : Nat) (h1 : 1 ≤ j) : cUp (cOff nt neg) nc j ∉ irange (2 * nt) := by
+  rw [mem_irange]
+  cases neg <;> simp only [cUp, cOff, Int.ofNat_eq_natCast, Bool.false_eq_true, if_false, if_true] <;> split <;> omega
+
+theorem ctrl_dkeys_nodup (c0 : Bool) (rest : List Bool) (nt : Nat) : (dkeys (ctrlNet c0 rest nt).bonds).Nodup := by
+  rw [ctrl_dkeys_bonds]; exact zrange_nodup _ _
+
+theorem ctrl_full_pos (rest : List Bool) (nt : Nat) (D : Option Int → List Nat → α) (hX : ∀ c ∈ rest, CrossSpec (Xf D) c)
+    (a b : Nat) (oc ot ic it : List Nat)
+    (h1 : oc.length = rest.length) (h2 : ot.length = nt) (h3 : ic.length = rest.length) (h4 : it.length = nt)
+    (ha : a < 2) (hoc : ∀ x ∈ oc, x < 2) (hic : ∀ x ∈ ic, x < 2) :
+    full (ctrlNet true rest nt) D ((a :: oc) ++ ot ++ ((b :: ic) ++ it)) =
+      if a :: oc = b :: ic then D (some 0) ((if a :: oc = (true :: rest).map bit then 1 else 0) :: (ot ++ it)) else 0 := by
+  by_cases hab : a = b
+  · subst hab
+    have hp := (ctrl_pins_pos rest.length nt a a oc ot ic it h1 h2 h3 h4).mpr rfl
+    rw [full_eval _ D _ _ (ctrl_virt true rest nt) hp,
+      sumOver_internal _ _ (ups true rest.length nt) (ctrl_dkeys_nodup true rest nt) (ups_nodup _ _ _) (ctrl_internal_mem true rest nt)]
+    have hm := map_pin _ _ (fun _ => 0) hp
+    generalize pin (cvb true rest.length nt) ((a :: oc) ++ ot ++ ((a :: ic) ++ it)) (fun _ => 0) = σ at hm
+    obtain ⟨hf1, ho, hto, hf2, hi, hti⟩ := ctrl_split true rest.length nt σ a a oc ot ic it h1 h2 h3 hm
+    simp only [cFirst, Bool.not_true, Bool.false_eq_true, if_false] at hf1
+    simp only [ups, if_true, Bool.not_true] at ho hi ⊢
+    -- the summand: control chain times target tensor
+    have hprod : (fun τ : Int → Nat => prodL ((realTensors (ctrlNet true rest nt)).map (fun t => D t.dataref (t.bids.map τ)))) =
+        fun τ => chainProd (Xf D) (cOut (cOff nt false)) (cIn (cOff nt false)) (cUp (cOff nt false) (rest.length + 1)) 1 rest τ *
+          (fun τ : Int → Nat => D (some 0) (τ (cUp (cOff nt false) (rest.length + 1) (rest.length + 1)) :: (irange (2 * nt)).map τ)) τ := by
+      funext τ
+      rw [ctrl_real]
+      simp only [Bool.not_true, Bool.false_eq_true, if_false, List.nil_append, List.map_cons, prodL_cons, prodL_cross]
+      rw [mul_comm]
+    have hg : ∀ j, 1 < j → j < 1 + rest.length → Indep (fun τ : Int → Nat =>
+        D (some 0) (τ (cUp (cOff nt false) (rest.length + 1) (rest.length + 1)) :: (irange (2 * nt)).map τ))
+        (cUp (cOff nt false) (rest.length + 1) j) := by
+      intro j hj1 hj2 τ v
+      have hne : cUp (cOff nt false) (rest.length + 1) (rest.length + 1) ≠ cUp (cOff nt false) (rest.length + 1) j :=
+        fun e => by have := cUp_inj _ _ _ _ (by omega) (by omega) (by omega) (by omega) e; omega
+      simp only [upd_other _ hne, map_upd_of_notMem _ _ _ _ (cUp_notMem_irange false nt _ j (by omega))]
+    rw [hprod]
+    refine (ctrl_chain true rest nt D hX _ σ oc ic hg ho hi hoc hic (by rw [← hf1] at ha; exact ha)).trans ?_
+    simp only [Bool.not_true]
+    rw [show 1 + rest.length = rest.length + 1 by omega, upd_same,
+      map_upd_of_notMem _ _ _ _ (cUp_notMem_irange false nt _ _ (by omega)), hf1]
+    have hr : (irange (2 * nt)).map σ = ot ++ it := by rw [two_mul, irange_add, List.map_append, hto, hti]
+    rw [hr]
+    have ha2 : a = 0 ∨ a = 1 := by omega
+    by_cases hoi : oc = ic
+    · subst hoi
+      rcases ha2 with rfl | rfl <;> simp [bit]
+    · simp [hoi]
+  · have hp : pinsOK (cvb true rest.length nt) ((a :: oc) ++ ot ++ ((b :: ic) ++ it)) = false := by
+      rw [Bool.eq_false_iff]
+      intro h
+      exact hab ((ctrl_pins_pos rest.length nt a b oc ot ic it h1 h2 h3 h4).mp h)
+    rw [full_eq_zero _ D _ _ (ctrl_virt true rest nt) hp, if_neg]
+    intro e
+    exact hab (List.cons.inj e).1
+
+end
+end Qib.GateNet
+
+namespace Qib.GateNet
+open Qib.TNet
+section
+variable {α : Type} [CommSemiring α]
+
+theorem cUp_notMem_outs_ins (neg : Bool) (nt len j : Nat) (h1 : 1 ≤ j) (h2 : j ≤ len + 1) :
+    cUp (cOff nt neg) (len + 1) j ∉ outs (cOff nt neg) len ∧ cUp (cOff nt neg) (len + 1) j ∉ ins (cOff nt neg) len := by
+  rw [mem_outs, mem_ins]
+  constructor <;> (rintro ⟨j', h1', h2', e⟩; simp only [cUp, cOut, cIn, Int.ofNat_eq_natCast] at e; split at e <;> omega)
+
+theorem ctrl_full_neg (rest : List Bool) (nt : Nat) (D : Option Int → List Nat → α) (hX : ∀ c ∈ rest, CrossSpec (Xf D) c)
+    (hPX : ∀ p q, p < 2 → q < 2 → D (some 1) [p, q] = if p = q then 0 else 1)
+    (a b : Nat) (oc ot ic it : List Nat)
+    (h1 : oc.length = rest.length) (h2 : ot.length = nt) (h3 : ic.length = rest.length) (h4 : it.length = nt)
+    (ha : a < 2) (hb : b < 2) (hoc : ∀ x ∈ oc, x < 2) (hic : ∀ x ∈ ic, x < 2) :
+    full (ctrlNet false rest nt) D ((a :: oc) ++ ot ++ ((b :: ic) ++ it)) =
+      if a :: oc = b :: ic then D (some 0) ((if a :: oc = (false :: rest).map bit then 1 else 0) :: (ot ++ it)) else 0 := by
+  have hp := ctrl_pins_neg rest.length nt ((a :: oc) ++ ot ++ ((b :: ic) ++ it)) (by simp [h1, h2, h3, h4]; omega)
+  rw [full_eval _ D _ _ (ctrl_virt false rest nt) hp,
+    sumOver_internal _ _ (ups false rest.length nt) (ctrl_dkeys_nodup false rest nt) (ups_nodup _ _ _) (ctrl_internal_mem false rest nt)]
+  have hm := map_pin _ _ (fun _ => 0) hp
+  generalize pin (cvb false rest.length nt) ((a :: oc) ++ ot ++ ((b :: ic) ++ it)) (fun _ => 0) = σ at hm
+  obtain ⟨hf1, ho, hto, hf2, hi, hti⟩ := ctrl_split false rest.length nt σ a b oc ot ic it h1 h2 h3 hm
+  simp only [cFirst, Bool.not_false, if_true] at hf1 hf2
+  simp only [Bool.not_false] at ho hi
+  have hprod : (fun τ : Int → Nat => prodL ((realTensors (ctrlNet false rest nt)).map (fun t => D t.dataref (t.bids.map τ)))) =
+      fun τ => chainProd (Xf D) (cOut (cOff nt true)) (cIn (cOff nt true)) (cUp (cOff nt true) (rest.length + 1)) 1 rest τ *
+        (fun τ : Int → Nat => D (some 0) (τ (cUp (cOff nt true) (rest.length + 1) (rest.length + 1)) :: (irange (2 * nt)).map τ) *
+          (D (some 1) [τ (2 * Int.ofNat nt), τ (cUp (cOff nt true) (rest.length + 1) 1)] * D (some 1) [τ (cUp (cOff nt true) (rest.length + 1) 1), τ (2 * Int.ofNat nt + 1)])) τ := by
+    funext τ
+    rw [ctrl_real]
+    simp only [Bool.not_false, if_true, List.cons_append, List.nil_append, List.map_cons, prodL_cons, prodL_cross, List.map_nil]
+    ring
+  -- facts about the labels
+  have hupF : ∀ j, 1 ≤ j → j ≤ rest.length + 1 → cUp (cOff nt true) (rest.length + 1) j ≠ 2 * Int.ofNat nt ∧ cUp (cOff nt true) (rest.length + 1) j ≠ 2 * Int.ofNat nt + 1 := by
+    intro j hj1 hj2
+    simp only [cUp, cOff, if_true, Int.ofNat_eq_natCast]
+    constructor <;> split <;> omega
+  have hg : ∀ j, 1 < j → j < 1 + rest.length → Indep (fun τ : Int → Nat =>
+      D (some 0) (τ (cUp (cOff nt true) (rest.length + 1) (rest.length + 1)) :: (irange (2 * nt)).map τ) *
+        (D (some 1) [τ (2 * Int.ofNat nt), τ (cUp (cOff nt true) (rest.length + 1) 1)] * D (some 1) [τ (cUp (cOff nt true) (rest.length + 1) 1), τ (2 * Int.ofNat nt + 1)])) (cUp (cOff nt true) (rest.length + 1) j) := by
+    intro j hj1 hj2 τ v
+    have hne : cUp (cOff nt true) (rest.length + 1) (rest.length + 1) ≠ cUp (cOff nt true) (rest.length + 1) j :=
+      fun e => by have := cUp_inj _ _ _ _ (by omega) (by omega) (by omega) (by omega) e; omega
+    have hne1 : cUp (cOff nt true) (rest.length + 1) 1 ≠ cUp (cOff nt true) (rest.length + 1) j :=
+      fun e => by have := cUp_inj _ _ _ _ (by omega) (by omega) (by omega) (by omega) e; omega
+    have := hupF j (by omega) (by omega)
+    simp only [upd_other _ hne, upd_other _ hne1, upd_other _ this.1.symm, upd_other _ this.2.symm,
+      map_upd_of_notMem _ _ _ _ (cUp_notMem_irange true nt _ j (by omega))]
+  have hups : ups false rest.length nt = cUp (cOff nt true) (rest.length + 1) 1 :: (List.range' 2 rest.length).map (cUp (cOff nt true) (rest.length + 1)) := by
+    simp only [ups, Bool.false_eq_true, if_false, Bool.not_false, List.range'_succ, List.map_cons]
+  have hbd : bondDim (ctrlNet false rest nt) (cUp (cOff nt true) (rest.length + 1) 1) = 2 :=
+    ctrl_bondDim false rest nt 1 (by omega) (by omega)
+  rw [hups, sumOver_cons, hbd, sum_range_two, hprod]
+  have hstep : ∀ w, w < 2 →
+      sumOver (bondDim (ctrlNet false rest nt)) ((List.range' 2 rest.length).map (cUp (cOff nt true) (rest.length + 1)))
+        (fun τ => chainProd (Xf D) (cOut (cOff nt true)) (cIn (cOff nt true)) (cUp (cOff nt true) (rest.length + 1)) 1 rest τ *
+          (fun τ : Int → Nat => D (some 0) (τ (cUp (cOff nt true) (rest.length + 1) (rest.length + 1)) :: (irange (2 * nt)).map τ) *
+            (D (some 1) [τ (2 * Int.ofNat nt), τ (cUp (cOff nt true) (rest.length + 1) 1)] * D (some 1) [τ (cUp (cOff nt true) (rest.length + 1) 1), τ (2 * Int.ofNat nt + 1)])) τ)
+        (upd σ (cUp (cOff nt true) (rest.length + 1) 1) w) =
+      (if oc = ic then 1 else 0) * (D (some 0) ((if w = 1 ∧ oc = rest.map bit then 1 else 0) :: (ot ++ it)) *
+        (D (some 1) [a, w] * D (some 1) [w, b])) := by
+    intro w hw
+    have hnm := cUp_notMem_outs_ins true nt rest.length 1 (by omega) (by omega)
+    refine (ctrl_chain false rest nt D hX _ (upd σ (cUp (cOff nt true) (rest.length + 1) 1) w) oc ic hg
+      ((map_upd_of_notMem _ _ _ _ hnm.1).trans ho) ((map_upd_of_notMem _ _ _ _ hnm.2).trans hi)
+      hoc hic (by simp only [Bool.not_false]; rw [upd_same]; exact hw)).trans ?_
+    simp only [Bool.not_false]
+    congr 1
+    rw [show 1 + rest.length = rest.length + 1 by omega]
+    have hu1 : upd σ (cUp (cOff nt true) (rest.length + 1) 1) w (cUp (cOff nt true) (rest.length + 1) 1) = w := upd_same _ _ _
+    rw [hu1]
+    -- value of the first vertical bond after the last one has been set
+    have hw1 : upd (upd σ (cUp (cOff nt true) (rest.length + 1) 1) w) (cUp (cOff nt true) (rest.length + 1) (rest.length + 1)) (if w = 1 ∧ oc = rest.map bit then 1 else 0) (cUp (cOff nt true) (rest.length + 1) 1) = w := by
+      by_cases hlen : rest.length = 0
+      · have hr : rest = [] := List.length_eq_zero_iff.mp hlen
+        have ho0 : oc = [] := List.length_eq_zero_iff.mp (by rw [h1, hlen])
+        subst hr ho0
+        simp only [List.length_nil, Nat.zero_add, upd_same, List.map_nil, and_true]
+        have : w = 0 ∨ w = 1 := by omega
+        rcases this with rfl | rfl <;> simp
+      · have hne : cUp (cOff nt true) (rest.length + 1) 1 ≠ cUp (cOff nt true) (rest.length + 1) (rest.length + 1) :=
+          fun e => by have := cUp_inj _ _ _ _ (by omega) (by omega) (by omega) (by omega) e; omega
+        rw [upd_other _ hne, upd_same]
+    have hF := hupF (rest.length + 1) (by omega) (by omega)
+    have h1' := hupF 1 (by omega) (by omega)
+    rw [hw1, upd_same, upd_other _ hF.1.symm, upd_other _ hF.2.symm, upd_other _ h1'.1.symm, upd_other _ h1'.2.symm, hf1, hf2,
+      map_upd_of_notMem _ _ _ _ (cUp_notMem_irange true nt _ _ (by omega)),
+      map_upd_of_notMem _ _ _ _ (cUp_notMem_irange true nt _ _ (by omega))]
+    have hr : (irange (2 * nt)).map σ = ot ++ it := by rw [two_mul, irange_add, List.map_append, hto, hti]
+    rw [hr]
+  rw [hstep 0 (by omega), hstep 1 (by omega), hPX a 0 ha (by omega), hPX 0 b (by omega) hb, hPX a 1 ha (by omega),
+    hPX 1 b (by omega) hb]
+  have ha2 : a = 0 ∨ a = 1 := by omega
+  have hb2 : b = 0 ∨ b = 1 := by omega
+  by_cases hoi : oc = ic
+  · subst hoi
+    rcases ha2 with rfl | rfl <;> rcases hb2 with rfl | rfl <;> simp [bit]
+  · simp [hoi]
 
 end
 end Qib.GateNet
